@@ -43,7 +43,7 @@ pub fn judge_with(c: &Case, id: &str, make: &dyn Fn(&Prog, &RawCmd) -> Cmd) -> O
     let mut cmds: Vec<Cmd> = c.cmds.iter().map(|r| make(&p, r)).collect();
     cmds.push(Cmd::Exit);
     let aliases: Vec<u8> = c.cmds.iter().map(|r| r.alias).collect();
-    let mut model = run_model(&p, &cmds, &c.input, MODEL_BUDGET);
+    let mut model = run_model(&p, &cmds, &c.input, MODEL_BUDGET + proggen::extra_budget(&c.spec));
     if let Some(why) = model.ambiguous {
         obs.ambiguous = why.starts_with("step over");
         if !obs.ambiguous {
@@ -176,7 +176,7 @@ pub fn cases(max_cmds: usize) -> impl Strategy<Value = Case> {
         }),
         6..24,
     );
-    let spec = crate::pick![5 => proggen::prog_spec(24).boxed(), 1 => proggen::raw_image_spec(super::c03::image_words()).boxed()];
+    let spec = crate::pick![5 => proggen::with_spin(proggen::prog_spec(24)).boxed(), 1 => proggen::raw_image_spec(super::c03::image_words()).boxed()];
     (spec, crate::pick![3 => mixed, 2 => steppy, 1 => churn], input_bytes()).prop_map(|(spec, cmds, input)| Case { spec, cmds, input })
 }
 
